@@ -1570,6 +1570,13 @@ class ClassicChannel(utils.EventEmitter):
             # TODO: decide how to fail gracefully
 
     def on_disconnection_request(self, request: L2CAP_Disconnection_Request) -> None:
+        if request.source_cid != self.destination_cid:
+            # Not a request for this channel (e.g. a late request for an earlier
+            # channel that used the same CID): silently discarded
+            # (Core Spec Vol 3, Part A, 4.6).
+            logger.warning('disconnection request with unexpected source CID')
+            return
+
         self.send_control_frame(
             L2CAP_Disconnection_Response(
                 identifier=request.identifier,
@@ -1901,6 +1908,13 @@ class LeCreditBasedChannel(utils.EventEmitter):
         self.process_output()
 
     def on_disconnection_request(self, request: L2CAP_Disconnection_Request) -> None:
+        if request.source_cid != self.destination_cid:
+            # Not a request for this channel (e.g. a late request for an earlier
+            # channel that used the same CID): silently discarded
+            # (Core Spec Vol 3, Part A, 4.6).
+            logger.warning('disconnection request with unexpected source CID')
+            return
+
         self.send_control_frame(
             L2CAP_Disconnection_Response(
                 identifier=request.identifier,
